@@ -732,7 +732,10 @@ class NetlistOpsMixin:
                                 (row, ports[row][0], ports[row][1]))
 
                 for row in range(len(ports)):
-                    Y[row, col] = admittance(new.elements['V%d_' % row].I(s))
+                    # The port current flows into the positive node,
+                    # i.e., out of the positive terminal of the test
+                    # voltage source.
+                    Y[row, col] = admittance(-new.elements['V%d_' % row].I(s))
 
                 for row in range(len(ports)):
                     new.remove('V%d_' % row)
